@@ -132,13 +132,28 @@ class NoneTypeMarshaller(AbstractMarshaller[None]):
 class CastMarshaller(AbstractMarshaller[T], tp.Generic[T]):
     """A marshaller that casts a value to a specific type."""
 
+    __slots__ = ("primitive",)
+
+    def __init__(self, t: type[T], context: ContextT, *, var: str | None = None):
+        super().__init__(t, context, var=var)
+        # NB: The primitive representation of a subclass of a builtin number
+        #   is the builtin, not the subclass.
+        self.primitive = next(
+            (
+                base
+                for base in (bool, int, float)
+                if isinstance(self.origin, type) and issubclass(self.origin, base)
+            ),
+            self.origin,
+        )
+
     def __call__(self, val: T) -> serdes.MarshalledValueT:
         """Marshal a the value into bound type.
 
         Args:
             val: The value to marshal.
         """
-        cast = tp.cast("serdes.MarshalledValueT", self.origin(val))  # type: ignore[call-arg]
+        cast = tp.cast("serdes.MarshalledValueT", self.primitive(val))  # type: ignore[call-arg]
         return cast
 
 
